@@ -61,6 +61,23 @@ let () = iter_lines (fun line ->
     (match f, b with
      | Ok (k, fd), Ok (bb, be) -> Printf.printf "%s %d %s %s | %s\n" (string_of_z k) (if fd then 1 else 0) (string_of_z bb) (string_of_z be) (trace_str ())
      | _ -> print_endline "Stuck/Fuel")
+  | "GCYC" :: r :: sh :: n :: ws ->
+    (* the GENERATED counting pass (bucket table) followed by the GENERATED cycle-leader permutation, radix size r, shift sh,
+       on n 64-bit codes: final codes | swap log *)
+    let r = int_of_string r and n = int_of_string n in
+    let a = Array.of_list (Stdlib.List.map z_of_string ws) in
+    let items zi = let i = int_of_z zi in if i >= 0 && i < n then a.(i) else z_of_int 0 in
+    let zf _ = z_of_int 0 in
+    let rz = z_of_int r and rc = z_of_int (1 lsl r) and fuel = nat_of_int (n + (1 lsl r) + 5) in
+    (match Gen_RadixCount.pvRadixSort_count rz rc fuel zf items true true (z_of_int 0) (z_of_int n) (z_of_string sh) with
+     | Ok (((_, ei), _), _) ->
+       (match Gen_RadixCycle.pvRadixSort_cycle rz rc fuel ei zf items zf zf (z_of_int 0) (z_of_int 0) (z_of_string sh) with
+        | Ok (((((_, _), items'), swa), swb), swn) ->
+          let body = Stdlib.String.concat " " (Stdlib.List.init n (fun i -> string_of_z (items' (z_of_int i)))) in
+          let g = Stdlib.String.concat " " (Stdlib.List.init (int_of_z swn) (fun j -> string_of_z (swa (z_of_int j)) ^ "-" ^ string_of_z (swb (z_of_int j)))) in
+          Printf.printf "%s | %s\n" body g
+        | Stuck -> print_endline "Stuck" | Fuel -> print_endline "Fuel" | Exn -> print_endline "Exn")
+     | Stuck -> print_endline "Stuck(count)" | Fuel -> print_endline "Fuel(count)" | Exn -> print_endline "Exn")
   | "GSEL" :: n :: ws ->
     (* the GENERATED pvSelectionSort on an array of codes: final item codes | groupFunc calls pos:count *)
     let n = int_of_string n in
@@ -73,8 +90,11 @@ let () = iter_lines (fun line ->
        let g = Stdlib.String.concat " " (Stdlib.List.init (int_of_z gnum) (fun j -> string_of_z (gpos (z_of_int j)) ^ ":" ^ string_of_z (gcnt (z_of_int j)))) in
        Printf.printf "%s | %s\n" body g
      | Stuck -> print_endline "Stuck" | Fuel -> print_endline "Fuel" | Exn -> print_endline "Exn")
-  | ["SCODE"; w; x] -> print_endline (string_of_z (CodeGetter.code_of_signed (z_of_string w) (z_of_string x)))
-  | ["UCODE"; w; x] -> print_endline (string_of_z (CodeGetter.code_of_unsigned (z_of_string w) (z_of_string x)))
+  | ["SCODE"; w; x] -> print_endline (string_of_z (Radix_Gen_Proofs.gen_code_signed (z_of_string w) (z_of_string x)))     (* GENERATED getters *)
+  | ["UCODE"; w; x] -> print_endline (string_of_z (Radix_Gen_Proofs.gen_code_unsigned (z_of_string w) (z_of_string x)))
+  | ["GRADIX"; r; w; c; sh] ->
+    let f = if w = "8" then Gen_Radix.pvGetRadix_u8 else Gen_Radix.pvGetRadix_u64 in
+    print_endline (string_of_z (f (z_of_string r) (z_of_string c) (z_of_string sh)))
   | ["CMP"; a; b] -> print_endline (string_of_z (Gen_Leaves.pvCompare (z_of_string a) (z_of_string b)))
   | (("FH" | "F" | "B" | "S") as cmd) :: v :: n :: ws ->
     let coarse = (v = "P" || v = "H") in
